@@ -488,6 +488,7 @@ func c09Run(w *W) {
 
 func init() {
 	Register(&Workload{Prop: "C08", Name: "delivery", MaxSteps: 6000, Run: c08Run})
-	Register(&Workload{Prop: "C09", Name: "progress", MaxSteps: 6000, Run: c09Run})
-	Register(&Workload{Prop: "C09", Name: "shutdown-faults", Faulty: true, MaxSteps: 6000, Run: c09Run})
+	// cells: back-end kind x ParallelDispatch x WorkerPoolSize (the first draws of makeBroker)
+	Register(&Workload{Prop: "C09", Name: "progress", MaxSteps: 6000, Cells: []int{6, 2, 3}, Run: c09Run})
+	Register(&Workload{Prop: "C09", Name: "shutdown-faults", Faulty: true, MaxSteps: 6000, Cells: []int{6, 2, 3}, Run: c09Run})
 }
